@@ -30,8 +30,21 @@ PropClause(v, id, name) ==
   ELSE LET k == CHOOSE x \in K : \A y \in K : y <= x IN
        IF ValueIn(fs[k], id) \in {0, 1, 25, 50, 75, 100} /\ v.pflags[name] # ValueIn(fs[k], id)
        THEN "decodable property response delivered in the exchange was not applied (or another frame of the exchange disturbed it)" ELSE "ok"
+(* capabilities: a decodable 0xB5 response (frame type 3) delivered to get_capabilities() is applied, whatever else the exchange carried.  *)
+(* Observed through one capability: vertical swing angle (record 09 00 01 01).                                                        *)
+RECURSIVE HasRec(_, _, _, _)
+HasRec(b, n, id, val) == IF n = 0 \/ Len(b) < 3 THEN FALSE
+                         ELSE LET sz == b[3] IN
+                              IF Len(b) < 3 + sz THEN FALSE
+                              ELSE (b[1] + 256 * b[2] = id /\ sz >= 1 /\ b[4] = val) \/ HasRec(Drop(b, 3 + sz), n - 1, id, val)
+CapsUD(f) == Good(f) /\ f[11] = 181 /\ f[10] = 3 /\ Len(BodyOf(f)) >= 2 /\ HasRec(Drop(BodyOf(f), 2), BodyOf(f)[2], 9, 1)
+CapsClause(v) ==
+  IF v.op # "get_capabilities" \/ ~(\E k \in 1..Len(v.frames) : CapsUD(v.frames[k])) THEN "ok"
+  ELSE IF \E k \in 1..Len(v.frames) : Good(v.frames[k]) /\ v.frames[k][11] = 181 /\ ~CapsUD(v.frames[k]) THEN "ok"       \* several capability frames: which one counts is not pinned down here
+  ELSE IF ~v.cflags.ud THEN "decodable capabilities response delivered to get_capabilities was not applied" ELSE "ok"
 Verdict(v) ==
   IF v.raised # "none" THEN "operation raised " \o v.raised
+  ELSE IF CapsClause(v) # "ok" THEN CapsClause(v)
   ELSE IF v.op \in Applying /\ PropClause(v, PropSwingUD, "ud") # "ok" THEN PropClause(v, PropSwingUD, "ud")
   ELSE IF v.op \in Applying /\ PropClause(v, PropSwingLR, "lr") # "ok" THEN PropClause(v, PropSwingLR, "lr")
   ELSE LET k == LastGoodState(v.frames) IN
